@@ -317,6 +317,17 @@ def check_slots(case):
         want = []
     if len(calls) != 1 or len(calls[0]) != len(want) or not same_value(calls[0], want):
         raise Violation('accepted call %s passed %r, expected one call with %r' % (text, calls, want), enc(calls), enc([want]))
+    if mode == 'simple' and want:
+        # the same list handed to a host function that declares defaults for all its parameters: a blank slot is a blank it is passed, not a parameter left out
+        got = []
+
+        def with_defaults(a=101, b=102, c=103, d=104, e=105, f=106):
+            got.append([a, b, c, d, e, f][:len(want)])
+            return 1
+        env.P.set_function('RECD', with_defaults)
+        r4 = env.parse('RECD(%s)' % sep.join(slots))
+        if r4['error'] is None and (len(got) != 1 or not same_value(got[0], want)):
+            raise Violation('RECD(%s), a host function whose parameters all have defaults, received %r; the slots hold %r' % (sep.join(slots), got, want), enc(got), enc([want]))
 
 
 # ---------------------------------------------------------------- arrays
@@ -352,6 +363,19 @@ def check_array(case):
     r2 = env.parse('REC(%s)' % text)
     if r2['error'] is None and (len(calls) != 1 or not same_value(calls[0], [want])):
         raise Violation('REC(%s) received %r, expected one argument %r' % (text, calls, want), enc(calls), enc([[want]]))
+    if len(rows) == 1 and len(rows[0]) >= 2:
+        # one element replaced by an array literal (or by a host list): the other elements stay what they are, the list stays flat around it
+        k = len(text) % len(rows[0])
+        for inner, iv in (('{7;8}', [7, 8]), ('v_pair', [4, 9])):
+            els = list(rows[0])
+            els[k] = inner
+            t2 = '{' + sep.join(els) + '}'
+            w2 = [ELEMV[e] for e in rows[0]]
+            w2[k] = iv
+            env3, calls3 = rec_env({'v_pair': [4, 9]})
+            r3 = env3.parse(t2)
+            if r3['error'] is None and not same_value(r3['result'], w2):
+                raise Violation('array literal %s -> %r, expected %r' % (t2, r3['result'], w2), enc(r3['result']), enc(w2))
 
 
 tree_case = st.fixed_dictionaries({'tree': trees(), 'spacing': gf.spacing_s, 'lead': st.booleans()})
